@@ -133,7 +133,10 @@ class Gen:
         self.positioned = {nm: self.coin(p["p_position"]) for nm in names}
         self.fieldpool = list(FIELD_NAMES)
         if p["p_keywords"] > 0:
-            self.fieldpool += self.r.sample(RUST_KEYWORDS, 8)
+            # `impl` as a *field* name is outside the quantifier: a multi-type field `impl` of rule R makes the
+            # generated enum `R_impl` collide with the generated module `R_impl` (a generated item, cf. C03)
+            # a field named like a (unit-struct) rule is a collision among the user's own names: excluded too
+            self.fieldpool += self.r.sample([k for k in RUST_KEYWORDS if k != "impl" and k not in names], 8)
         rules = []
         self.extra_rules = []
         self.probe_id = 0
